@@ -34,7 +34,7 @@ var widths = []int{1, 2, 4, 8}
 var checker = &vk.Checker[Case]{
 	ID: "C08",
 	Rule: "strings over all 256 byte values (length 0..40, thorough 0..2000) x width in {1,2,4,8}: FromStr length and every word vs bit-level extraction, Get at every index, ToStr(FromStr(s)) == s; ToStr on in-range word slices of any length (partial last byte) vs MSB-first packing; " +
-		"FirstDiff(a,b,from,end) on pairs {equal, common prefix + divergence inside a byte, one a prefix of the other, unrelated} x from in [0,max words+2] x end in {-1} u [0,max words+3] vs the smallest differing index below lim = min(end or words(a), words(a), words(b)); FromStrs/ToStrs element-wise. " +
+		"FirstDiff(a,b,from,end) on pairs {equal, common prefix + divergence inside a byte, one a prefix of the other, unrelated} x from in [0,max words+2] x end in {-1} u [0,max words+3] vs the smallest differing index below lim = min(end or words(a), words(a), words(b)); FromStrs/ToStrs element-wise, ToStrs also on lists of word slices with incomplete last bytes. " +
 		"Grid: all 1-byte strings x widths x indexes; all pairs of 1-byte strings x widths x all windows. Non-trivial: str/tostr with length >= 2 and a byte >= 0x80; firstdiff with a non-empty common word prefix, a later difference and a window that cuts or contains it. Distinct by hash of the case.",
 	Check:    check,
 	Classify: classify,
@@ -136,6 +136,29 @@ func check(c Case) *vk.Failure {
 		}
 		return nil
 	}
+	if c.Op == "tostrs" {
+		// ToStrs on arbitrary in-range word slices (also incomplete last bytes) == ToStr element-wise
+		in := make([][]byte, len(c.List))
+		for i, l := range c.List {
+			in[i] = append([]byte(nil), l...)
+		}
+		var got []string
+		if f := vk.Try(fmt.Sprintf("BitWord[%d].ToStrs(%v)", c.N, in), func() { got = bw.ToStrs(in) }); f != nil {
+			return f
+		}
+		if len(got) != len(in) {
+			return vk.Failf("tostrs-len", "ToStrs of %d word slices returned %d strings", len(in), len(got))
+		}
+		for i := range in {
+			if want := packWords(c.List[i], c.N); got[i] != want {
+				return vk.Failf("tostrs-element", "BitWord[%d].ToStrs(%v)[%d] = %x, want %x (element-wise ToStr)", c.N, in, i, got[i], want)
+			}
+			if string(in[i]) != string(c.List[i]) {
+				return vk.Failf("tostrs-mutates", "ToStrs modified word slice %d", i)
+			}
+		}
+		return nil
+	}
 	// plural forms are element-wise
 	strs := vk.Strings(c.List)
 	var wss [][]byte
@@ -188,6 +211,18 @@ func classify(c Case) (bool, []string) {
 			labels = append(labels, "partial-last-byte")
 		}
 		return len(c.Words) >= 2 && (len(c.Words)%per != 0 || c.N == 8), labels
+	case "tostrs":
+		per := 8 / c.N
+		incomplete := 0
+		for _, l := range c.List {
+			if len(l)%per != 0 {
+				incomplete++
+			}
+		}
+		if incomplete > 0 {
+			labels = append(labels, "has-incomplete-element")
+		}
+		return len(c.List) >= 2 && incomplete > 0, labels
 	case "firstdiff":
 		a, b := string(c.A), string(c.B)
 		full := wantFirstDiff(a, b, c.N, 0, -1)
@@ -233,6 +268,9 @@ func genPair(t *rapid.T, maxLen int) ([]byte, []byte, string) {
 func genCase(t *rapid.T) Case {
 	n := widths[gen.Uniform(t, 4, "n")]
 	maxLen := vk.Pick(40, 2000)
+	if gen.Chance(t, 1, 8, "long") {
+		maxLen = vk.Pick(600, 2000) // beyond any small-string threshold, also in the quick tier
+	}
 	switch gen.Uniform(t, 8, "op") {
 	case 0, 1:
 		return Case{Op: "str", N: n, S: gen.Bytes(t, 0, maxLen, "s")}
@@ -249,6 +287,16 @@ func genCase(t *rapid.T) Case {
 	case 3:
 		k := gen.Len(t, 6, "k")
 		var list []vk.Hex
+		if gen.Chance(t, 1, 2, "tostrs") { // word slices of any length, also incomplete last bytes
+			for i := 0; i < k; i++ {
+				ws := gen.Bytes(t, 0, 14, "ws")
+				for j := range ws {
+					ws[j] &= byte(1<<uint(n) - 1)
+				}
+				list = append(list, ws)
+			}
+			return Case{Op: "tostrs", N: n, List: list}
+		}
 		for i := 0; i < k; i++ {
 			list = append(list, gen.Bytes(t, 0, 12, "e"))
 		}
